@@ -176,6 +176,12 @@ loop:
 	if name == "" && a.seen {
 		return nil, InvalidFormat{"entry without filename"}
 	}
+	// A named entry is a member of the directory that is open. There is none behind a root
+	// that is a file, symlink or device, or behind the end of the root directory. The name
+	// would be looked up below the root itself, that is through it if it was a symlink.
+	if name != "" && a.depth <= 0 {
+		return nil, InvalidFormat{fmt.Sprintf("entry '%s' outside of a directory", name)}
+	}
 
 	// If it doesn't have a payload or is a device/symlink, it must be a directory
 	a.seen = true
